@@ -438,7 +438,8 @@ def bfs_shard(cfg, monitor_classes, alphabet, depth0, depth, part, nparts, multi
     """Deterministic BFS to depth0 in every shard, then this shard continues its slice of the frontier.
     Returns the Explorer (seen states, executed sequences, violations)."""
     import time as _t
-    t0 = _t.monotonic()
+    from .env import real_monotonic
+    t0 = real_monotonic()
     ex = Explorer(cfg, monitor_classes, alphabet, multi=multi, stopstart=stopstart, max_forks=max_forks,
                   on_state=on_state if part == 0 else None, on_run=on_run if part == 0 else None, rest=rest)
     # `start`: event sequences to continue from instead of boot (prefix-seeded exploration; depth counts the added events)
@@ -455,7 +456,7 @@ def bfs_shard(cfg, monitor_classes, alphabet, depth0, depth, part, nparts, multi
             pass
         nxt = []
         for i, seq in enumerate(frontier):
-            if time_budget is not None and _t.monotonic() - t0 > time_budget:
+            if time_budget is not None and real_monotonic() - t0 > time_budget:
                 ex.truncated = True
                 break
             nxt += ex.expand([seq])
